@@ -116,6 +116,14 @@ def streams(ctx):
                 if kind != "nf" and row is not None and row.get("n") == "1" and not any(
                         vlib.decode_line(c["req"])[0] == "c.mark" and vlib.decode_line(c["req"])[3] == name for c in cs[a:b]):
                     problems.append(f"{name} marked nonexistent although the registry answered {kind}")
+            # a successful outcome is recorded WITH its dist-tags: unless the claim, the version store or the tag store was the injected
+            # fault, every tag the registry answered with is in the cache afterwards
+            for (name, kind, vs, tags, fl) in jobs:
+                if name in req_names and kind == "ok" and vs and tags and not (set(fl) & set("crs")) and name not in pre_claimed and [j[0] for j in jobs].count(name) == 1:
+                    for k in range(0, len(tags), 2):
+                        item = f"T {reg}/{vlib.hx(name)} {vlib.hx(tags[k])}={vlib.hx(tags[k + 1])}"
+                        if item not in dump.split(";"):
+                            problems.append(f"{name}: the registry answered with tag {tags[k]}={tags[k + 1]} but the cache does not hold it afterwards")
             # "the routine reports as fetched exactly the packages whose versions were stored" (fetch_missing_packages): judged
             # where it is unambiguous — a requested package whose registry answered with versions and whose cache calls were
             # not failed must be reported, one whose registry did not answer with versions must not
@@ -123,8 +131,11 @@ def streams(ctx):
                 ft = out.split("fetched=")[1].split(" ")[0]
                 reported = [vlib.unhx(x[1:]) for x in ft[1:-1].split(",")] if len(ft) > 2 else []
                 for (name, kind, vs, tags, fl) in jobs:
-                    stored = any(it.startswith(f"V {reg}/{vlib.hx(name)} ") for it in dump.split(";"))
-                    if name in req_names and kind == "ok" and vs and fl == "-" and stored and name not in reported and [j[0] for j in jobs].count(name) == 1:
+                    # (stored = the cache now holds exactly the versions the registry answered with; a failure of ANOTHER cache call of
+                    # this package - saving its tags, releasing its claim - does not make them any less stored)
+                    have = sorted(vlib.unhx(it.split(" ")[2]) for it in dump.split(";") if it.startswith(f"V {reg}/{vlib.hx(name)} "))
+                    stored = bool(vs) and have == sorted(vs)
+                    if name in req_names and kind == "ok" and vs and "r" not in fl and "c" not in fl and stored and name not in reported and [j[0] for j in jobs].count(name) == 1:
                         problems.append(f"{name}: versions were fetched and stored but the routine does not report it as fetched (reported {reported})")
                     if name in reported and kind != "ok":
                         problems.append(f"{name} reported as fetched although the registry answered {kind}")
